@@ -88,7 +88,7 @@ def tasks_for(pid, tier, seed):
                           what="declaration with cfg'd items under every truth assignment == erased declaration (through the real DataWorld::new twice)"))
         meta(2, 1, [(0,), ()], [[()], [(1,)]], 2, "2x1 arch0:p0 comp(1,0):p1")
         meta(2, 2, [(), (0,)], [[(0,), ()], [(), ()]], 1, "2x2 shared predicate on arch1 and comp(0,0)")
-        for sh in ("CC", "CE", "OC"):
+        for sh in ("CC", "CE", "OC", "DC", "ED"):
             t.append(dict(kind="cfgbind", A=2, C=3, shape=sh, name="cfg-query:%s 2x3" % sh,
                           what="query with cfg'd parameters under every truth assignment keeps the archetypes of the erased query"))
         if T:
